@@ -288,4 +288,95 @@ theorem wfc_of_unique_ids (n : Nat) (js : List JoinDef) (cs : List COp)
   simp only [List.reverse_nil, List.nil_append] at hs
   exact wf_sublist (hs.filterMap _) (h x.2 (mem_idxFrom_snd hx))
 
+/-! ### `clear()`: for every join it is that join's own `unregister_join` -/
+
+/-- one join's column of `multiTraceX` -/
+def colTraceX (i : Nat) (j : JoinDef) : Option St → List XOp → List (List (Ev × Ev))
+  | _, [] => []
+  | s, c :: cs => (stepX i j s c).2 :: colTraceX i j (stepX i j s c).1 cs
+
+/-- `clear()` drops the node of the join whatever its index, exactly like its own unregistration -/
+theorem stepX_view (i : Nat) (j : JoinDef) (s : Option St) (x : XOp) :
+    stepX i j s x = stepC i j s (viewX i x) := by
+  cases x with
+  | ctl c => rfl
+  | clear => simp [stepX, viewX, stepC]
+
+theorem colTraceX_eq (i : Nat) (j : JoinDef) (s : Option St) (xs : List XOp) :
+    colTraceX i j s xs = colTraceC i j s (xs.map (viewX i)) := by
+  induction xs generalizing s with
+  | nil => rfl
+  | cons x xs ih => simp [colTraceX, colTraceC, stepX_view, ih]
+
+theorem multiTraceX_length (ys : List (Nat × JoinDef × Option St)) (xs : List XOp) :
+    (multiTraceX ys xs).length = xs.length := by
+  induction xs generalizing ys with
+  | nil => rfl
+  | cons c cs ih => simp [multiTraceX, ih]
+
+theorem multiTraceX_nil (xs : List XOp) (g : List (List (Ev × Ev)) → List (List (Nat × Nat)))
+    (hg : g [] = []) : ((multiTraceX [] xs).map g).all (·.isEmpty) = true := by
+  induction xs with
+  | nil => rfl
+  | cons c cs ih => simp [multiTraceX, hg] at ih ⊢; exact ih
+
+theorem heads_multiTraceX (i : Nat) (j : JoinDef) (s : Option St)
+    (ys : List (Nat × JoinDef × Option St)) (xs : List XOp) (f : List (Ev × Ev) → List (Nat × Nat)) :
+    heads ((multiTraceX ((i, j, s) :: ys) xs).map (fun row => row.map f)) =
+      some ((colTraceX i j s xs).map f) := by
+  induction xs generalizing s ys with
+  | nil => rfl
+  | cons c cs ih => simp [multiTraceX, heads, colTraceX, ih]
+
+theorem tails_multiTraceX (i : Nat) (j : JoinDef) (s : Option St)
+    (ys : List (Nat × JoinDef × Option St)) (xs : List XOp) (f : List (Ev × Ev) → List (Nat × Nat)) :
+    tails ((multiTraceX ((i, j, s) :: ys) xs).map (fun row => row.map f)) =
+      (multiTraceX ys xs).map (fun row => row.map f) := by
+  induction xs generalizing s ys with
+  | nil => rfl
+  | cons c cs ih => simp [multiTraceX, tails, ih]
+
+/-- all columns, with `clear()` calls -/
+theorem multiOkX_multiTraceX (f : List (Ev × Ev) → List (Nat × Nat)) (hf : f [] = [])
+    (hspec : ∀ (j : JoinDef) ms, WF (joinOps j ms) →
+      mgrOkG (routeJ j.l j.r) j.P ms ((routedTrace (routeJ j.l j.r) j.P init ms).map f) = true)
+    (n : Nat) (js : List JoinDef) (xs : List XOp) (hwf : WFX n js xs) :
+    multiOkX n js xs
+      ((multiTraceX ((idxFrom n js).map (fun x => (x.1, x.2, some init))) xs).map
+        (fun row => row.map f)) = true := by
+  induction js generalizing n with
+  | nil =>
+    simp only [multiOkX, idxFrom, List.map_nil, List.length_map, multiTraceX_length,
+      beq_self_eq_true, Bool.true_and]
+    exact multiTraceX_nil xs _ rfl
+  | cons j js ih =>
+    simp only [idxFrom, List.map_cons, multiOkX, heads_multiTraceX, tails_multiTraceX,
+      Bool.and_eq_true, colTraceX_eq]
+    refine ⟨livesOk_column n j f hf (hspec j) _ (hwf (n, j) (by simp [idxFrom])), ih (n + 1) ?_⟩
+    intro x hx
+    exact hwf x (by simp [idxFrom, hx])
+
+theorem opsOf_view (i : Nat) (xs : List XOp) : opsOf (xs.map (viewX i)) = opsOfX xs := by
+  induction xs with
+  | nil => rfl
+  | cons x xs ih =>
+    cases x with
+    | ctl c => simp only [opsOf, opsOfX, List.map_cons, List.filterMap_cons, viewX, opOfX] at ih ⊢; rw [ih]
+    | clear => simp only [opsOf, opsOfX, List.map_cons, List.filterMap_cons, viewX, opOfX, opOf] at ih ⊢; rw [ih]
+
+/-- ids unique over the whole history ⇒ unique within every life, with `clear()` calls -/
+theorem wfx_of_unique_ids (n : Nat) (js : List JoinDef) (xs : List XOp)
+    (h : ∀ j ∈ js, WF (joinOps j (opsOfX xs))) : WFX n js xs := by
+  intro x hx life hl
+  have hs := livesOf_sublist x.1 (xs.map (viewX x.1)) true [] life hl
+  simp only [List.reverse_nil, List.nil_append, opsOf_view] at hs
+  exact wf_sublist (hs.filterMap _) (h x.2 (mem_idxFrom_snd hx))
+
+/-- a history without `clear()` is a history of `multiTraceC` -/
+theorem multiTraceX_ctl (ys : List (Nat × JoinDef × Option St)) (cs : List COp) :
+    multiTraceX ys (cs.map .ctl) = multiTraceC ys cs := by
+  induction cs generalizing ys with
+  | nil => rfl
+  | cons c cs ih => simp [multiTraceX, multiTraceC, stepX, ih]
+
 end C14
